@@ -605,6 +605,10 @@ func witnesses(r *hx.Run) {
 			r.KnownSeen(id, what)
 		}
 	}
+	// regression inputs: tags with several dashes (the revision is cut at the first one)
+	for _, p := range [][2]string{{"8.5-21.1645811927", "8.6-7-source"}, {"8.6-7", "8.6-7-source"}, {"v4.7.0-202112140553.p0.g091bb99.assembly.stream-source", "v4.6.0-1"}, {"4.010-1", "4.9-1"}} {
+		rhcPair(r, p[0], p[1], "witness")
+	}
 	rhcWitness("rhctag-projection-nonnumeric", "4.5x", "4.3", `Compare("4.5x","4.3") = 1 but Version(true) gives (4,0) < (4,3)`)
 	rhcWitness("rhctag-projection-int32-wrap", "2147483648.0", "1.0", `Compare("2147483648.0","1.0") = 1 but Version(true) gives (-2147483648,0) < (1,0)`)
 
